@@ -209,24 +209,28 @@ func (op _OpContextType) decodeInst(x uint32) (as abi.As, arg *abi.AsArgument, a
 		arg.Imm = imm
 		return
 	case OpFormatType_2R_msbw_lsbw:
+		msbw := uimm(x, 16, 5)
+		lsbw := uimm(x, 10, 5)
 		argRaw.Rd = rd
 		argRaw.Rs1 = rj
-		argRaw.Rs2 = rk
-		argRaw.Rs3 = fa
+		argRaw.Rs2 = msbw
+		argRaw.Rs3 = lsbw
 		arg.Rd = op.decodeRegI(rd)
 		arg.Rs1 = op.decodeRegI(rj)
-		arg.Rs2 = abi.RegType(rk)
-		arg.Rs3 = abi.RegType(fa)
+		arg.Rs2 = abi.RegType(msbw)
+		arg.Rs3 = abi.RegType(lsbw)
 		return
 	case OpFormatType_2R_msbd_lsbd:
+		msbd := uimm(x, 16, 6)
+		lsbd := uimm(x, 10, 6)
 		argRaw.Rd = rd
 		argRaw.Rs1 = rj
-		argRaw.Rs2 = rk
-		argRaw.Rs3 = fa
+		argRaw.Rs2 = msbd
+		argRaw.Rs3 = lsbd
 		arg.Rd = op.decodeRegI(rd)
 		arg.Rs1 = op.decodeRegI(rj)
-		arg.Rs2 = abi.RegType(rk)
-		arg.Rs3 = abi.RegType(fa)
+		arg.Rs2 = abi.RegType(msbd)
+		arg.Rs3 = abi.RegType(lsbd)
 		return
 	case OpFormatType_fcsr_1R:
 		argRaw.Rd = rd
